@@ -78,7 +78,7 @@ def check_queries_are_pure(cut):
                     calls = {
                         "mean_photon": (0,), "quad_expectation": (0, 0.3), "fock_prob": ([0] * n,), "reduced_dm": ([0],), "parity_expectation": ([0],),
                         "is_coherent": (0,), "is_squeezed": (0,), "squeezing": (), "displacement": (), "fidelity_vacuum": (),
-                        "fidelity_coherent": ([0.1] * n,), "wigner": (0, xv, pv), "number_expectation": ([0],), "means": (), "cov": (),
+                        "fidelity_coherent": ([0.1 + 0.2j] * n,), "wigner": (0, xv, pv), "number_expectation": ([0],), "means": (), "cov": (),
                         "is_vacuum": (), "trace": (), "all_fock_probs": (), "dm": (), "ket": (), "weights": (), "purity": (),
                     }
 
@@ -112,6 +112,20 @@ def check_queries_are_pure(cut):
                             same = True
                         if not same:
                             bad(f"{backend} state ({n} mode(s), hbar={hb}): {meth} answers differently when asked twice")
+                            continue
+                        # a state object carries its own convention: changing the GLOBAL hbar afterwards (a sweep that keeps the
+                        # states and compares them at the end) must not change any of its answers
+                        try:
+                            sf.hbar = 3.3 if hb != 3.3 else 1.1
+                            r3 = getattr(st, meth)(*args)
+                            same3 = np.allclose(np.asarray(r1, dtype=complex), np.asarray(r3, dtype=complex), atol=1e-12) if r1 is not None else r3 is None
+                        except Exception as e:
+                            same3 = True
+                        finally:
+                            sf.hbar = hb
+                        if not same3:
+                            bad(f"{backend} state ({n} mode(s)) created at hbar={hb}: {meth} answers differently after the global sf.hbar was set to another value "
+                                f"({np.round(np.asarray(r1, dtype=complex).ravel()[:3], 5).tolist()} -> {np.round(np.asarray(r3, dtype=complex).ravel()[:3], 5).tolist()})")
     finally:
         sf.hbar = old_hbar
 
